@@ -57,7 +57,4 @@ def run(tier, seed):
 
 
 def replay(path):
-    import json
-    d = json.load(open(path))
-    print(json.dumps(d["violations"][:3], indent=1)[:3000])
-    return 1
+    return C.generic_replay(path)
